@@ -228,17 +228,12 @@ class Session:
         # API v4 text one, as Processes._start installs it: that encoder itself first runs the v6 JSON encoder and then the
         # text one, so both renderings of every message are produced by production code (NLRI.v4_json, the third, is
         # called by force() below)
-        procs = Processes()
-        procs._async_mode = True
-        procs._process = {'c03-text4': object()}
-        procs._encoder = {'c03-text4': Response.V4.Text(text_v4)}
+        procs = exa.make_processes([('c03-text4', 'text', 4)])
         self.procs = procs
         self.peer = _Peer(self.neighbor, procs)
 
     def written(self) -> int:
-        n = sum(len(q) for q in self.procs._write_queue.values())
-        self.procs._write_queue.clear()
-        return n
+        return exa.drop_pending_writes(self.procs)
 
 
 def _afi(a):
@@ -409,7 +404,7 @@ def seam1(S: Session, mtype: int, body: bytes, measure: bool = False):
     finally:
         steps = _Steps.n
         _Steps.limit = 1 << 62
-    S.procs._write_queue.clear()
+    exa.drop_pending_writes(S.procs)
     if out[0] != 'budget' and steps * 1000 // budget_for(len(body)) > _Steps.max_permille:
         _Steps.max_permille = steps * 1000 // budget_for(len(body))
         _Steps.max_at = (mtype, body[:64].hex(), len(body), steps)
